@@ -46,7 +46,7 @@ def check(ctx):
     # …including checkpointed chunks (stored at their own height only if they hash to the checkpoint), and the hash that is folded up the branch
     # must be the transaction's own: double SHA-256 of its witness-free serialisation, cached only while the transaction is unchanged
     R.share(ctx, "C07", {"C07-D3": "C08-D6/CHECKPOINT"})
-    R.share(ctx, "C05", {"C05-D3": "C08-D7"})
+    R.share(ctx, "C05", {"C05-D3": "C08-D7", "C05-D1": "C08-D7/CODEC"})   # the id of a segwit transaction is a hash of a RE-serialisation: reader and writer both matter
 
 
 def writers(ctx, prog):
